@@ -181,3 +181,96 @@ def appended : Res → Nat × Nat
   | .nilNoErr => (1, 1)
 
 end Retry
+
+/-
+  The stop protocol of /repo/events.go eventDebouncer (node and schema events) at the flusher's program points:
+
+    flusher():  for { select { case <-e.timer.C: e.mu.Lock(); e.flush(); e.mu.Unlock()
+                               case <-e.quit:    return } }
+    flush():    if len(events) > 0 { go callback(events); events = fresh buffer }          (mu held)
+    debounce(): e.mu.Lock(); timer.Reset(1s); append; e.mu.Unlock()
+    stop():     e.quit <- struct{}{} (UNBUFFERED: waits for the flusher's select); close(e.quit)        — holds NO lock
+
+  `holdMu` = stop() takes e.mu first and keeps it across the send (seeded change C17-10; NOT the code that exists).
+  `H` = somebody else inside e.mu (a debounce() that is slow in its critical section; the harness).
+-/
+namespace EvStop
+
+inductive Holder where
+  | none | H | F | S
+deriving DecidableEq, Repr
+
+inductive FPc where
+  | select      -- in the select
+  | wantLock    -- chose the timer case, about to e.mu.Lock()
+  | flushing    -- holds e.mu
+  | exited
+deriving DecidableEq, Repr
+
+inductive SPc where
+  | idle
+  | wantLock    -- (holdMu variant only) stop() waits for e.mu
+  | sending     -- blocked in `e.quit <- struct{}{}`
+  | closing     -- handshake done: close(e.quit) (holdMu variant: then releases e.mu)
+  | done
+deriving DecidableEq, Repr
+
+structure St where
+  mu : Holder
+  armed : Bool       -- the debounce timer is running
+  fired : Bool       -- timer.C holds a value
+  events : Nat
+  f : FPc
+  s : SPc
+  callbacks : Nat    -- callback goroutines started
+deriving DecidableEq, Repr
+
+inductive Act where
+  | deb          -- a debounce() call gets e.mu: timer.Reset, append, unlock
+  | fire         -- the debounce time passes
+  | hlock | hunlock
+  | fTimer | fLock | fFlush | fQuit
+  | stop | sLock | stopDone
+deriving DecidableEq, Repr
+
+def init : St := { mu := .none, armed := false, fired := false, events := 0, f := .select, s := .idle, callbacks := 0 }
+
+def stepG (holdMu : Bool) (x : St) : Act → Option St
+  | .deb => if x.mu = .none then some { x with armed := true, events := x.events + 1 } else none
+  | .fire => if x.armed then some { x with armed := false, fired := true } else none
+  | .hlock => if x.mu = .none then some { x with mu := .H } else none
+  | .hunlock => if x.mu = .H then some { x with mu := .none } else none
+  | .fTimer => if x.f = .select ∧ x.fired then some { x with f := .wantLock, fired := false } else none
+  | .fLock => if x.f = .wantLock ∧ x.mu = .none then some { x with f := .flushing, mu := .F } else none
+  | .fFlush =>
+      if x.f = .flushing then
+        some { x with f := .select, mu := .none, events := 0, callbacks := if x.events > 0 then x.callbacks + 1 else x.callbacks }
+      else none
+  | .fQuit => if x.f = .select ∧ x.s = .sending then some { x with f := .exited, s := .closing } else none
+  | .stop =>
+      if x.s = .idle then (if holdMu then some { x with s := .wantLock } else some { x with s := .sending }) else none
+  | .sLock => if x.s = .wantLock ∧ x.mu = .none then some { x with s := .sending, mu := .S } else none
+  | .stopDone =>
+      if x.s = .closing then some { x with s := .done, mu := if x.mu = .S then .none else x.mu } else none
+
+def step (x : St) (a : Act) : Option St := stepG false x a
+
+def runG (b : Bool) : St → List Act → Option St
+  | x, [] => some x
+  | x, a :: as => match stepG b x a with
+    | some x' => runG b x' as
+    | none => none
+
+def run (x : St) (as : List Act) : Option St := runG false x as
+
+/-- steps of the flusher goroutine -/
+def fAct : Act → Bool
+  | .fTimer | .fLock | .fFlush | .fQuit => true
+  | _ => false
+
+/-- flusher steps a blocked stop() waits for at most (a timer value still in the channel may cost one more round) -/
+def mu (x : St) : Nat :=
+  (if x.fired then 3 else 0) +
+  (match x.f with | .select => 1 | .wantLock => 3 | .flushing => 2 | .exited => 0)
+
+end EvStop
